@@ -1,5 +1,850 @@
+// Package c10 drives property C10 (all package functions are safe under concurrent use).
+//
+// Part S replays schedules emitted by TLC from specs/TypeCache.tla (GenSpec): the verif hooks of the
+// per-type caches ("lookup", "miss", "publish") park each goroutine, and a controller releases them in
+// the order the specification's behaviour prescribes, on types never used before in the process.  Every
+// call must return what it returns alone, every goroutine must be found at the hook the behaviour
+// predicts (otherwise the model does not describe the code: counted as desync), and everything must
+// terminate once all hooks are opened.
+//
+// Part R lets the Go scheduler interleave G goroutines x mixed operations over cold and shared types,
+// shared field queries and shared paths, at several GOMAXPROCS; results are compared with the ones
+// computed before the goroutines start.  The same runner runs in the -race build, whose reports the
+// driver collects.
 package c10
 
-import "verifharness/wk"
+import (
+	"bytes"
+	"context"
+	stdjson "encoding/json"
+	"fmt"
+	"math/rand"
+	"os"
+	"reflect"
+	"runtime"
+	"sort"
+	"strconv"
+	"strings"
+	"sync"
+	"sync/atomic"
+	"time"
+	"unsafe"
 
-func Run(job *wk.Job, w *wk.Worker) error { return nil }
+	json "github.com/goccy/go-json"
+
+	"verifharness/tyreg"
+	"verifharness/wk"
+)
+
+type Params struct {
+	Mode      string `json:"mode"`      // "sched" or "stress"
+	Schedules string `json:"schedules"` // ndjson file (mode sched)
+	Variant   string `json:"variant"`   // "norace" / "race": which build this binary is
+	Rounds    int    `json:"rounds"`    // mode stress
+}
+
+type call struct {
+	Side string `json:"side"`
+	T    string `json:"t"`
+	Q    bool   `json:"q"`
+}
+
+type schedule struct {
+	Plan  map[string][]call `json:"plan"`
+	QWarm bool              `json:"qwarm"`
+	Sched [][]string        `json:"sched"` // [goroutine, hook, type]
+	Src   string            `json:"src"`
+}
+
+type eface struct{ typ, data unsafe.Pointer }
+
+func typePtr(v interface{}) uintptr { return uintptr((*eface)(unsafe.Pointer(&v)).typ) }
+
+func goid() int64 {
+	var buf [64]byte
+	n := runtime.Stack(buf[:], false)
+	s := string(buf[:n])
+	s = strings.TrimPrefix(s, "goroutine ")
+	if i := strings.IndexByte(s, ' '); i > 0 {
+		id, _ := strconv.ParseInt(s[:i], 10, 64)
+		return id
+	}
+	return -1
+}
+
+// ---- cooperative scheduler on the cache hooks ----
+
+const (
+	stRunning int32 = iota
+	stParked
+	stDone
+)
+
+type gctl struct {
+	name   string
+	state  int32 // atomic
+	point  string
+	tname  string
+	resume chan struct{}
+}
+
+type coop struct {
+	mu      sync.Mutex
+	byGoid  map[int64]*gctl
+	watched map[uintptr]string // typeptr -> model type name
+	free    int32              // atomic: hooks pass through
+}
+
+var theCoop atomic.Value // *coop or nil-holder
+
+type coopBox struct{ c *coop }
+
+func gate(side, point string, typeptr uintptr) {
+	b, _ := theCoop.Load().(coopBox)
+	c := b.c
+	if c == nil || atomic.LoadInt32(&c.free) != 0 {
+		return
+	}
+	tn, ok := c.watched[typeptr] // read-only after the goroutines start
+	if !ok {
+		return
+	}
+	c.mu.Lock()
+	g := c.byGoid[goid()]
+	c.mu.Unlock()
+	if g == nil {
+		return
+	}
+	g.point, g.tname = point, tn
+	atomic.StoreInt32(&g.state, stParked)
+	<-g.resume
+}
+
+func waitNot(g *gctl, st int32, d time.Duration) bool {
+	deadline := time.Now().Add(d)
+	for i := 0; ; i++ {
+		if atomic.LoadInt32(&g.state) != st {
+			return true
+		}
+		if i < 200 {
+			runtime.Gosched()
+		} else {
+			time.Sleep(20 * time.Microsecond)
+		}
+		if time.Now().After(deadline) {
+			return atomic.LoadInt32(&g.state) != st
+		}
+	}
+}
+
+// ---- values ----
+
+var (
+	queryTypePtr = typePtr((*json.FieldQuery)(nil))
+	usedT        int
+	hseq         int
+	qTypeWarm    bool
+)
+
+type result struct {
+	out string
+	err string
+}
+
+func freshStatic() (tyreg.Entry, bool) {
+	ts := tEntries()
+	if usedT >= len(ts) {
+		return tyreg.Entry{}, false
+	}
+	e := ts[usedT]
+	usedT++
+	return e, true
+}
+
+var tCache []tyreg.Entry
+
+func tEntries() []tyreg.Entry {
+	if tCache == nil {
+		tCache = tyreg.ByKind("T")
+	}
+	return tCache
+}
+
+// freshHeap makes a never-seen struct type on the heap and a pointer to a populated value of it.
+func freshHeap() func() interface{} {
+	hseq++
+	n := hseq
+	st := reflect.StructOf([]reflect.StructField{
+		{Name: "A", Type: reflect.TypeOf(0), Tag: `json:"A"`},
+		{Name: "B", Type: reflect.TypeOf(0), Tag: `json:"B"`},
+		{Name: "U", Type: reflect.TypeOf(0), Tag: reflect.StructTag(fmt.Sprintf(`json:"h%d_%d"`, os.Getpid(), n))},
+	})
+	return func() interface{} {
+		v := reflect.New(st)
+		v.Elem().Field(0).SetInt(int64(n))
+		v.Elem().Field(1).SetInt(int64(2 * n))
+		v.Elem().Field(2).SetInt(int64(3*n + 1))
+		return v.Interface()
+	}
+}
+
+func Run(job *wk.Job, w *wk.Worker) error {
+	var p Params
+	if err := stdjson.Unmarshal(job.Params, &p); err != nil {
+		return err
+	}
+	if len(tyreg.Static) == 0 {
+		return fmt.Errorf("c10 needs the many-types binary (tyreg.Static is empty)")
+	}
+	var evMu sync.Mutex
+	badOwn := 0
+	json.VerifSetCacheTracer(func(e json.VerifCacheEvent) {
+		if e.ProgType != 0 && e.ProgType != e.TypePtr {
+			evMu.Lock()
+			badOwn++
+			evMu.Unlock()
+		}
+	})
+	defer json.VerifSetCacheTracer(nil)
+	var err error
+	switch p.Mode {
+	case "sched":
+		err = runSched(job, w, &p)
+	case "stress":
+		err = runStress(job, w, &p)
+	default:
+		err = fmt.Errorf("unknown mode %q", p.Mode)
+	}
+	if badOwn > 0 {
+		w.DivCase("own-program|"+p.Variant, false, fmt.Sprintf("%d lookups returned a program compiled for another type", badOwn), map[string]string{"mode": p.Mode})
+	}
+	return err
+}
+
+// ---- part S ----
+
+func runSched(job *wk.Job, w *wk.Worker, p *Params) error {
+	json.VerifSetCacheGate(gate)
+	defer json.VerifSetCacheGate(nil)
+	theCoop.Store(coopBox{})
+	if job.Replay != nil {
+		var s schedule
+		if err := stdjson.Unmarshal(job.Replay, &s); err != nil {
+			return err
+		}
+		w.Begin(0, func() interface{} { return s })
+		replaySchedule(w, p, &s)
+		return nil
+	}
+	data, err := os.ReadFile(p.Schedules)
+	if err != nil {
+		return err
+	}
+	lines := bytes.Split(bytes.TrimSpace(data), []byte("\n"))
+	for i, ln := range lines {
+		idx := int64(i)
+		if !w.Mine(idx) {
+			continue
+		}
+		var s schedule
+		if err := stdjson.Unmarshal(ln, &s); err != nil {
+			return err
+		}
+		w.Begin(idx, func() interface{} { return s })
+		replaySchedule(w, p, &s)
+	}
+	return nil
+}
+
+func hasQ(s *schedule) bool {
+	for _, cs := range s.Plan {
+		for _, c := range cs {
+			if c.Q {
+				return true
+			}
+		}
+	}
+	return false
+}
+
+type planned struct {
+	c      call
+	mk     func() interface{}
+	expect result
+}
+
+func replaySchedule(w *wk.Worker, p *Params, s *schedule) {
+	if hasQ(s) && !s.QWarm && qTypeWarm {
+		w.Count("skipped-query-type-already-warm", 1)
+		return
+	}
+	if hasQ(s) && s.QWarm && !qTypeWarm {
+		// warm the query type's own program
+		q0, _ := json.BuildFieldQuery("Z")
+		_, _ = json.Marshal(q0)
+		qTypeWarm = true
+	}
+	// bind the model's types to types never used before
+	makers := map[string]func() interface{}{}
+	c := &coop{byGoid: map[int64]*gctl{}, watched: map[uintptr]string{queryTypePtr: "Q"}}
+	names := map[string]bool{}
+	for _, cs := range s.Plan {
+		for _, cl := range cs {
+			names[cl.T] = true
+		}
+	}
+	var sorted []string
+	for n := range names {
+		sorted = append(sorted, n)
+	}
+	sort.Strings(sorted)
+	for _, n := range sorted {
+		if n == "H" {
+			makers[n] = freshHeap()
+		} else {
+			e, ok := freshStatic()
+			if !ok {
+				w.Count("skipped-no-cold-type-left", 1)
+				return
+			}
+			makers[n] = e.New
+		}
+		c.watched[typePtr(makers[n]())] = n
+	}
+	query, _ := json.BuildFieldQuery("A")
+	ctx := json.SetFieldQueryToContext(context.Background(), query)
+
+	// expected results, computed without touching go-json's caches for these types
+	plans := map[string][]planned{}
+	var gnames []string
+	for g, cs := range s.Plan {
+		gnames = append(gnames, g)
+		for _, cl := range cs {
+			pl := planned{c: cl, mk: makers[cl.T]}
+			v := pl.mk()
+			full, _ := stdjson.Marshal(v)
+			switch {
+			case cl.Side == "enc" && cl.Q:
+				a := reflect.ValueOf(v).Elem().Field(0).Int()
+				pl.expect = result{out: fmt.Sprintf(`{"A":%d}`, a)}
+			case cl.Side == "enc":
+				pl.expect = result{out: string(full)}
+			default:
+				pl.expect = result{out: string(full)} // decode the full document, re-render with encoding/json
+			}
+			plans[g] = append(plans[g], pl)
+		}
+	}
+	sort.Strings(gnames)
+	ctl := map[string]*gctl{}
+	results := map[string][]result{}
+	var wg sync.WaitGroup
+	var resMu sync.Mutex
+	started := make(chan struct{})
+	for _, g := range gnames {
+		gc := &gctl{name: g, resume: make(chan struct{})}
+		ctl[g] = gc
+		wg.Add(1)
+		go func(g string, gc *gctl, pls []planned) {
+			defer wg.Done()
+			c.mu.Lock()
+			c.byGoid[goid()] = gc
+			c.mu.Unlock()
+			<-started
+			var rs []result
+			for _, pl := range pls {
+				rs = append(rs, doCall(pl, ctx))
+			}
+			resMu.Lock()
+			results[g] = rs
+			resMu.Unlock()
+			atomic.StoreInt32(&gc.state, stDone)
+		}(g, gc, plans[g])
+	}
+	// all goroutines registered?
+	for {
+		c.mu.Lock()
+		n := len(c.byGoid)
+		c.mu.Unlock()
+		if n == len(gnames) {
+			break
+		}
+		runtime.Gosched()
+	}
+	theCoop.Store(coopBox{c})
+	close(started)
+
+	desync := ""
+	blocked := 0
+	for k, st := range s.Sched {
+		g := ctl[st[0]]
+		if g == nil {
+			continue
+		}
+		if !waitNot(g, stRunning, 300*time.Millisecond) {
+			blocked++ // blocked on a lock held by a parked goroutine (race build)
+			continue
+		}
+		if atomic.LoadInt32(&g.state) == stDone {
+			if desync == "" {
+				desync = fmt.Sprintf("step %d: %s already finished, model expects it at %s(%s)", k, st[0], st[1], st[2])
+			}
+			continue
+		}
+		if (g.point != st[1] || g.tname != st[2]) && desync == "" {
+			desync = fmt.Sprintf("step %d: %s is at %s(%s), model expects %s(%s)", k, st[0], g.point, g.tname, st[1], st[2])
+		}
+		atomic.StoreInt32(&g.state, stRunning)
+		g.resume <- struct{}{}
+		// run-to-next-hook: give it time to park again, finish, or block on a lock
+		waitNot(g, stRunning, 20*time.Millisecond)
+	}
+	// the model's behaviour is complete: every goroutine should be done (or parked, if the code has more hook passages than the model)
+	extra := 0
+	atomic.StoreInt32(&c.free, 1)
+	for _, g := range ctl {
+		if waitNot(g, stRunning, 50*time.Millisecond) && atomic.LoadInt32(&g.state) == stParked {
+			extra++
+			atomic.StoreInt32(&g.state, stRunning)
+			g.resume <- struct{}{}
+		}
+	}
+	done := make(chan struct{})
+	go func() { wg.Wait(); close(done) }()
+	hung := false
+	deadline := time.After(20 * time.Second)
+loop:
+	for {
+		select {
+		case <-done:
+			break loop
+		case <-deadline:
+			hung = true
+			break loop
+		case <-time.After(5 * time.Millisecond):
+			// a goroutine may have parked between the free flag and its hook: release it
+			for _, g := range ctl {
+				if atomic.LoadInt32(&g.state) == stParked {
+					atomic.StoreInt32(&g.state, stRunning)
+					select {
+					case g.resume <- struct{}{}:
+					default:
+						atomic.StoreInt32(&g.state, stParked)
+					}
+				}
+			}
+		}
+	}
+	theCoop.Store(coopBox{})
+	if hasQ(s) {
+		qTypeWarm = true
+	}
+	w.Nontrivial()
+	w.Count("calls", int64(len(s.Sched)))
+	if hung {
+		buf := make([]byte, 1<<16)
+		n := runtime.Stack(buf, true)
+		w.DivFine("hang|"+p.Variant+"|"+planClass(s), "hang", true, "the calls did not return within 20 s after all hooks were opened\n"+clipS(string(buf[:n]), 3000), s)
+		// the stuck goroutines cannot be recovered: leave the process
+		w.Finish()
+		os.Exit(0)
+	}
+	if extra > 0 && desync == "" {
+		desync = fmt.Sprintf("%d goroutine(s) still parked at a hook after the model's behaviour ended", extra)
+	}
+	if desync != "" {
+		w.Count("desync", 1)
+		if w.WantSample() {
+			w.Sample(map[string]interface{}{"desync": desync, "schedule": s})
+		}
+	} else {
+		w.Count("in-step-with-model", 1)
+	}
+	if blocked > 0 {
+		w.Count("lock-blocked-steps", int64(blocked))
+	}
+	for _, g := range gnames {
+		for i, pl := range plans[g] {
+			var r result
+			if i < len(results[g]) {
+				r = results[g][i]
+			}
+			if r != pl.expect {
+				w.DivFine("result|"+p.Variant+"|"+pl.c.Side+"|"+tclass(pl.c), fmt.Sprintf("%s|%v", pl.c.T, pl.c.Q), true,
+					fmt.Sprintf("%s's call %d (%+v) returned %q (err %q), alone it returns %q", g, i, pl.c, clipS(r.out, 200), r.err, clipS(pl.expect.out, 200)), s)
+			}
+		}
+	}
+}
+
+func planClass(s *schedule) string {
+	if hasQ(s) {
+		return "field-query"
+	}
+	return "plain"
+}
+
+func tclass(c call) string {
+	k := "fast-type"
+	if c.T == "H" {
+		k = "heap-type"
+	}
+	if c.Q {
+		k += "+field-query"
+	}
+	return k
+}
+
+func clipS(s string, n int) string {
+	if len(s) > n {
+		return s[:n] + "..."
+	}
+	return s
+}
+
+func doCall(pl planned, ctx context.Context) (r result) {
+	defer func() {
+		if x := recover(); x != nil {
+			r = result{err: "panic: " + fmt.Sprint(x)}
+		}
+	}()
+	v := pl.mk()
+	switch {
+	case pl.c.Side == "enc" && pl.c.Q:
+		b, err := json.MarshalContext(ctx, v)
+		return mk(b, err)
+	case pl.c.Side == "enc":
+		b, err := json.Marshal(v)
+		return mk(b, err)
+	default:
+		doc, _ := stdjson.Marshal(v)
+		dst := reflect.New(reflect.TypeOf(v).Elem())
+		if err := json.Unmarshal(doc, dst.Interface()); err != nil {
+			return result{err: err.Error()}
+		}
+		b, err := stdjson.Marshal(dst.Interface())
+		return mk(b, err)
+	}
+}
+
+func mk(b []byte, err error) result {
+	if err != nil {
+		return result{err: err.Error()}
+	}
+	return result{out: string(b)}
+}
+
+// ---- part R ----
+
+type op struct {
+	Name   string `json:"name"`
+	run    func() result
+	expect result
+}
+
+type roundCfg struct {
+	Round      int   `json:"round"`
+	Goroutines int   `json:"goroutines"`
+	Procs      int   `json:"gomaxprocs"`
+	Seed       int64 `json:"seed"`
+}
+
+type sharedT struct {
+	ID   int               `json:"id"`
+	Name string            `json:"name"`
+	Tags []string          `json:"tags"`
+	M    map[string]int    `json:"m"`
+	I    interface{}       `json:"i"`
+	Sub  *sharedT          `json:"sub,omitempty"`
+	F    float64           `json:"f"`
+	Raw  stdjson.RawMessage `json:"raw,omitempty"`
+}
+
+func runStress(job *wk.Job, w *wk.Worker, p *Params) error {
+	gs := []int{2, 4, 8, 16, 32, 64}
+	ps := []int{1, 2, 4, 16}
+	defer runtime.GOMAXPROCS(runtime.GOMAXPROCS(0))
+	if job.Replay != nil {
+		var rc roundCfg
+		if err := stdjson.Unmarshal(job.Replay, &rc); err != nil {
+			return err
+		}
+		w.Begin(0, func() interface{} { return rc })
+		stressRound(w, p, rc)
+		return nil
+	}
+	for r := 0; r < p.Rounds; r++ {
+		idx := int64(r)
+		if !w.Mine(idx) {
+			continue
+		}
+		rc := roundCfg{Round: r, Goroutines: gs[r%len(gs)], Procs: ps[(r/len(gs))%len(ps)], Seed: job.Seed*7919 + int64(r)}
+		w.Begin(idx, func() interface{} { return rc })
+		stressRound(w, p, rc)
+	}
+	return nil
+}
+
+func stressRound(w *wk.Worker, p *Params, rc roundCfg) {
+	rng := rand.New(rand.NewSource(rc.Seed))
+	runtime.GOMAXPROCS(rc.Procs)
+	// cold material for this round
+	var cold []tyreg.Entry
+	kinds := []string{"T", "Tv", "L", "D", "E", "sp", "a2", "mv", "as", "pl", "N", "M"}
+	base := usedT
+	for i := 0; i < 6 && base+i < len(tEntries()); i++ {
+		usedT++
+		idx := tEntries()[base+i].Idx
+		for _, e := range tyreg.Static {
+			if e.Idx == idx {
+				cold = append(cold, e)
+			}
+		}
+	}
+	_ = kinds
+	if len(cold) == 0 {
+		w.Count("skipped-no-cold-type-left", 1)
+		return
+	}
+	query, _ := json.BuildFieldQuery("A", "B") // shared, hash not yet computed
+	qctx := json.SetFieldQueryToContext(context.Background(), query)
+	path, _ := json.CreatePath("$.tags[1]")
+	path2, _ := json.CreatePath("$..id")
+	shared := &sharedT{ID: 7, Name: "sh\"ared <>", Tags: []string{"a", "b", "c"}, M: map[string]int{"z": 1, "a": 2, "m": 3},
+		I: []interface{}{1.5, "x", nil, map[string]interface{}{"k": true}}, Sub: &sharedT{ID: 8, Tags: []string{}, M: map[string]int{}}, F: 1e21,
+		Raw: stdjson.RawMessage(`{"r":[1,2]}`)}
+	sharedDoc, _ := stdjson.Marshal(shared)
+	big := make([]int, 200)
+	for i := range big {
+		big[i] = i * 3
+	}
+	bigDoc, _ := stdjson.Marshal(big)
+	heapMk := freshHeap()
+
+	// the catalogue of operations; expectations come from encoding/json (cold types) or from a sequential call on shared, warm types
+	var cat []func() op
+	for _, e := range cold {
+		e := e
+		v0 := e.New()
+		want, _ := stdjson.Marshal(v0)
+		cat = append(cat, func() op {
+			return op{Name: "Marshal(cold " + e.Kind + ")", expect: result{out: string(want)}, run: func() result { return mk(json.Marshal(e.New())) }}
+		})
+		cat = append(cat, func() op {
+			return op{Name: "Unmarshal(cold " + e.Kind + ")", expect: result{out: string(want)}, run: func() result {
+				dst := reflect.New(reflect.TypeOf(v0))
+				if err := json.Unmarshal(want, dst.Interface()); err != nil {
+					return result{err: err.Error()}
+				}
+				return mk(stdjson.Marshal(dst.Elem().Interface()))
+			}}
+		})
+		if e.Kind == "T" {
+			a := reflect.ValueOf(v0).Elem().Field(0).Int()
+			b := reflect.ValueOf(v0).Elem().Field(1).Int()
+			cat = append(cat, func() op {
+				return op{Name: "MarshalContext(shared query, cold T)", expect: result{out: fmt.Sprintf(`{"A":%d,"B":%d}`, a, b)},
+					run: func() result { return mk(json.MarshalContext(qctx, e.New())) }}
+			})
+			cat = append(cat, func() op {
+				return op{Name: "Encoder.Encode(cold T)", expect: result{out: string(want) + "\n"}, run: func() result {
+					var buf bytes.Buffer
+					err := json.NewEncoder(&buf).Encode(e.New())
+					return mk(buf.Bytes(), err)
+				}}
+			})
+			cat = append(cat, func() op {
+				return op{Name: "Decoder.Decode(cold T)", expect: result{out: string(want)}, run: func() result {
+					dst := reflect.New(reflect.TypeOf(v0).Elem())
+					if err := json.NewDecoder(bytes.NewReader(want)).Decode(dst.Interface()); err != nil {
+						return result{err: err.Error()}
+					}
+					return mk(stdjson.Marshal(dst.Interface()))
+				}}
+			})
+		}
+		if e.Kind == "L" {
+			// a long array into the same named slice type from many goroutines (pooled scratch arrays)
+			n := 80 + rng.Intn(60)
+			lv := reflect.MakeSlice(reflect.TypeOf(v0), n, n)
+			for i := 0; i < n; i++ {
+				lv.Index(i).Field(0).SetInt(int64(i + 1))
+				lv.Index(i).Field(2).SetInt(int64(e.Idx))
+			}
+			ldoc, _ := stdjson.Marshal(lv.Interface())
+			cat = append(cat, func() op {
+				return op{Name: "Unmarshal(long array into cold named slice)", expect: result{out: string(ldoc)}, run: func() result {
+					dst := reflect.New(reflect.TypeOf(v0))
+					if err := json.Unmarshal(ldoc, dst.Interface()); err != nil {
+						return result{err: err.Error()}
+					}
+					return mk(stdjson.Marshal(dst.Elem().Interface()))
+				}}
+			})
+		}
+	}
+	hv := heapMk()
+	hwant, _ := stdjson.Marshal(hv)
+	cat = append(cat, func() op {
+		return op{Name: "Marshal(cold heap type)", expect: result{out: string(hwant)}, run: func() result { return mk(json.Marshal(heapMk())) }}
+	})
+	cat = append(cat, func() op {
+		return op{Name: "Unmarshal(cold heap type)", expect: result{out: string(hwant)}, run: func() result {
+			dst := reflect.New(reflect.TypeOf(hv).Elem())
+			if err := json.Unmarshal(hwant, dst.Interface()); err != nil {
+				return result{err: err.Error()}
+			}
+			return mk(stdjson.Marshal(dst.Interface()))
+		}}
+	})
+	seq := func(name string, f func() result) {
+		exp := f() // alone, before the goroutines start (shared, warm material only)
+		cat = append(cat, func() op { return op{Name: name, expect: exp, run: f} })
+	}
+	seq("Marshal(shared)", func() result { return mk(json.Marshal(shared)) })
+	seq("MarshalIndent(shared)", func() result { return mk(json.MarshalIndent(shared, ">", "\t")) })
+	seq("MarshalWithOption(shared, UnorderedMap off)", func() result { return mk(json.MarshalWithOption(shared)) })
+	seq("Unmarshal(shared)", func() result {
+		var d sharedT
+		if err := json.Unmarshal(sharedDoc, &d); err != nil {
+			return result{err: err.Error()}
+		}
+		return mk(stdjson.Marshal(&d))
+	})
+	seq("Unmarshal(interface)", func() result {
+		var d interface{}
+		if err := json.Unmarshal(sharedDoc, &d); err != nil {
+			return result{err: err.Error()}
+		}
+		return mk(stdjson.Marshal(d))
+	})
+	seq("Unmarshal([]int x200)", func() result {
+		var d []int
+		if err := json.Unmarshal(bigDoc, &d); err != nil {
+			return result{err: err.Error()}
+		}
+		return mk(stdjson.Marshal(d))
+	})
+	seq("Decoder.Decode(shared)", func() result {
+		var d sharedT
+		if err := json.NewDecoder(bytes.NewReader(sharedDoc)).Decode(&d); err != nil {
+			return result{err: err.Error()}
+		}
+		return mk(stdjson.Marshal(&d))
+	})
+	seq("Valid", func() result { return result{out: fmt.Sprint(json.Valid(sharedDoc), json.Valid(sharedDoc[:len(sharedDoc)-1]))} })
+	seq("Compact", func() result {
+		var buf bytes.Buffer
+		err := json.Compact(&buf, []byte(" { \"a\" : [ 1 , 2 , {\"b\":null} ] } "))
+		return mk(buf.Bytes(), err)
+	})
+	seq("Indent", func() result {
+		var buf bytes.Buffer
+		err := json.Indent(&buf, sharedDoc, "", "  ")
+		return mk(buf.Bytes(), err)
+	})
+	seq("HTMLEscape", func() result {
+		var buf bytes.Buffer
+		json.HTMLEscape(&buf, sharedDoc)
+		return mk(buf.Bytes(), nil)
+	})
+	seq("Path.Get(shared path)", func() result {
+		var d string
+		if err := path.Get(map[string]interface{}{"tags": []interface{}{"a", "b"}}, &d); err != nil {
+			return result{err: err.Error()}
+		}
+		return result{out: d}
+	})
+	seq("Path.Unmarshal(shared path)", func() result {
+		var d string
+		if err := path.Unmarshal(sharedDoc, &d); err != nil {
+			return result{err: err.Error()}
+		}
+		return result{out: d}
+	})
+	seq("Path.Extract(shared recursive path)", func() result {
+		bs, err := path2.Extract(sharedDoc)
+		if err != nil {
+			return result{err: err.Error()}
+		}
+		return result{out: string(bytes.Join(bs, []byte("|")))}
+	})
+	seq("Path.Extract(shared path, failing document)", func() result {
+		_, err := path.Extract(sharedDoc[:len(sharedDoc)/2])
+		if err != nil {
+			return result{err: "error"}
+		}
+		return result{out: "no error"}
+	})
+
+	// distribute: every goroutine gets the cold operations in its own order plus a sample of the others
+	type slot struct {
+		o   op
+		got result
+	}
+	perG := make([][]slot, rc.Goroutines)
+	for g := range perG {
+		order := rng.Perm(len(cat))
+		n := len(cat)
+		if rc.Goroutines > 8 {
+			n = len(cat) * 2 / 3
+		}
+		for _, k := range order[:n] {
+			perG[g] = append(perG[g], slot{o: cat[k]()})
+		}
+	}
+	var wg sync.WaitGroup
+	start := make(chan struct{})
+	for g := range perG {
+		wg.Add(1)
+		go func(ss []slot) {
+			defer wg.Done()
+			<-start
+			for i := range ss {
+				func() {
+					defer func() {
+						if x := recover(); x != nil {
+							ss[i].got = result{err: "panic: " + fmt.Sprint(x)}
+						}
+					}()
+					ss[i].got = ss[i].o.run()
+				}()
+			}
+		}(perG[g])
+	}
+	close(start)
+	done := make(chan struct{})
+	go func() { wg.Wait(); close(done) }()
+	select {
+	case <-done:
+	case <-time.After(120 * time.Second):
+		buf := make([]byte, 1<<16)
+		n := runtime.Stack(buf, true)
+		w.DivFine("hang|"+p.Variant+"|stress", "hang", true, "goroutines did not finish within 120 s\n"+clipS(string(buf[:n]), 3000), rc)
+		w.Finish()
+		os.Exit(0)
+	}
+	w.Nontrivial()
+	calls := 0
+	for g := range perG {
+		for _, s := range perG[g] {
+			calls++
+			if s.got != s.o.expect {
+				w.DivFine("concurrent|"+p.Variant+"|"+opClass(s.o.Name), s.o.Name, true,
+					fmt.Sprintf("%s returned %q (err %q) in goroutine %d of %d (GOMAXPROCS %d); alone it returns %q (err %q)",
+						s.o.Name, clipS(s.got.out, 160), s.got.err, g, rc.Goroutines, rc.Procs, clipS(s.o.expect.out, 160), s.o.expect.err), rc)
+			}
+		}
+	}
+	w.Count("calls", int64(calls))
+	if w.WantSample() {
+		w.Sample(map[string]interface{}{"round": rc, "operations": len(cat), "cold_types": len(cold)})
+	}
+}
+
+func opClass(n string) string {
+	if i := strings.IndexByte(n, '('); i > 0 {
+		return n[:i]
+	}
+	return n
+}
